@@ -7,6 +7,7 @@ from typing import Dict, List, Optional, Set, Tuple
 from ..core import AnalysisError, RuleSpec
 from ..prov import Resolver, Prov
 from ..pymodel import call_name
+from .. import astq
 
 EXPLANATION = (
     "Who-may-write analysis over ford/*.py. R1 enumerates every call of a file-system mutating API "
@@ -110,49 +111,24 @@ def site_key(py, c: ast.Call, api: str, dest: ast.AST) -> str:
 
 
 def pagetree_names_trusted(py) -> Tuple[bool, str, ast.AST]:
-    """In get_page_tree, is every `topdir / name` name drawn from os.listdir(topdir) only?"""
+    """In get_page_tree, is every name joined to the directory (`topdir / name`) drawn from the directory listing only?
+    Decided by the element-provenance analysis (helper functions, membership filters and de-duplication are followed)."""
     fn = py.func("pagetree.get_page_tree")
     loop = None
     for n in ast.walk(fn):
         if isinstance(n, ast.For) and isinstance(n.target, ast.Name) and any(
                 isinstance(b, ast.BinOp) and isinstance(b.op, ast.Div) and isinstance(b.right, ast.Name)
-                and b.right.id == n.target.id and ast.unparse(b.left) == "topdir" for st in n.body for b in ast.walk(st)):
+                and b.right.id == n.target.id for st in n.body for b in ast.walk(st)):
             loop = n
     if loop is None:
-        raise AnalysisError("get_page_tree: the loop that joins `topdir / <name>` was not found")
-    it = loop.iter
-    if not isinstance(it, ast.Name):
-        return False, f"iterates `{ast.unparse(it)}`", loop
-    sources: List[str] = []
-    for n in ast.walk(fn):
-        if isinstance(n, ast.Assign) and any(isinstance(t, ast.Name) and t.id == it.id for t in n.targets):
-            sources.append(ast.unparse(n.value))
-    listing = {t.id for n in ast.walk(fn) if isinstance(n, ast.Assign)
-               and "os.listdir" in ast.unparse(n.value) for t in n.targets if isinstance(t, ast.Name)}
-    # a list filtered by membership in the listing is as good as the listing:  [x for x in ... if x in filelist]
-    for n in ast.walk(fn):
-        if isinstance(n, ast.Assign) and isinstance(n.value, ast.ListComp) and len(n.value.generators) == 1:
-            g = n.value.generators[0]
-            if isinstance(n.value.elt, ast.Name) and isinstance(g.target, ast.Name) and n.value.elt.id == g.target.id and any(
-                    isinstance(c, ast.Compare) and len(c.ops) == 1 and isinstance(c.ops[0], ast.In)
-                    and isinstance(c.left, ast.Name) and c.left.id == g.target.id
-                    and isinstance(c.comparators[0], ast.Name) and c.comparators[0].id in listing for c in g.ifs):
-                listing |= {t.id for t in n.targets if isinstance(t, ast.Name)}
-
-    def trusted_expr(e: ast.AST) -> bool:
-        if isinstance(e, ast.Name):
-            return e.id in listing
-        if isinstance(e, ast.BinOp) and isinstance(e.op, ast.Add):
-            return trusted_expr(e.left) and trusted_expr(e.right)
-        if isinstance(e, ast.Call) and call_name(e) in ("list", "sorted", "OrderedDict.fromkeys", "dict.fromkeys") and e.args:
-            return all(trusted_expr(a) for a in e.args)
-        return ast.unparse(e).startswith("sorted(os.listdir")
-    src_nodes = [n.value for n in ast.walk(fn) if isinstance(n, ast.Assign)
-                 and any(isinstance(t, ast.Name) and t.id == it.id for t in n.targets)]
-    untrusted = [ast.unparse(v) for v in src_nodes if not trusted_expr(v)]
-    if untrusted:
-        return False, f"page file names also come from {untrusted} (page metadata `ordered_subpage`)", loop
-    return True, "names come from os.listdir only", loop
+        raise AnalysisError("get_page_tree: the loop that joins `<dir> / <name>` was not found")
+    src = astq.ElemSources(py, "pagetree").sources(loop.iter, fn)
+    if not src:
+        raise AnalysisError("get_page_tree: no source found for the page names")
+    bad = sorted(x for x in src if x != "LISTING")
+    if bad:
+        return False, f"page file names also come from {bad} (page metadata `ordered_subpage`)", loop
+    return True, "names come from the directory listing only", loop
 
 
 def r1_write_provenance(ctx, rep):
@@ -363,11 +339,34 @@ def r2_reachability(ctx, rep):
            "refusal loop over src_dir missing, not raising, or placed before normalise_paths",
            py.nloc(refusal) if refusal is not None else py.nloc(pa))
     if refusal is not None:
-        t = ast.unparse(refusal)
-        ok = "output_dir in (srcdir, *srcdir.parents)" in t.replace("proj_data.", "") or \
-             "is_relative_to" in t
+        var = ast.unparse(refusal.target)
+        par = astq.parents_of(refusal)
+        raises = [r for r in ast.walk(refusal) if isinstance(r, ast.Raise)]
+        tests = [t for t, pol in astq.conditions_of(raises[0], par, stop=refusal) if pol]
+        eq = anc = False
+        for t in tests:
+            for n in ast.walk(t):
+                if isinstance(n, ast.Compare) and len(n.ops) == 1:
+                    l, r = ast.unparse(n.left), n.comparators[0]
+                    rt = ast.unparse(r)
+                    if isinstance(n.ops[0], ast.In) and "output_dir" in l:
+                        if f"{var}.parents" in rt:
+                            anc = True
+                        if isinstance(r, (ast.Tuple, ast.List, ast.Set)) and any(ast.unparse(e2) == var for e2 in r.elts):
+                            eq = True
+                    if isinstance(n.ops[0], ast.Eq) and {l.split(".")[-1], rt.split(".")[-1]} & {"output_dir"} and var in (l, rt):
+                        eq = True
+                if isinstance(n, ast.Call) and isinstance(n.func, ast.Attribute) and n.func.attr == "is_relative_to" and \
+                        ast.unparse(n.func.value) == var and n.args and "output_dir" in ast.unparse(n.args[0]):
+                    eq = anc = True
+                if isinstance(n, ast.Call) and call_name(n).endswith("commonpath") and "output_dir" in ast.unparse(n) and var in ast.unparse(n):
+                    eq = anc = True
+        ok = eq and anc
         rep.ob("refusal predicate", ok, "refuses when output_dir equals or is an ancestor of a source directory"
-               if ok else f"refusal predicate changed: {t[:120]}", py.nloc(refusal))
+               if ok else "the refusal " + ("does not cover output_dir == source directory" if not eq else
+                                            "does not cover output_dir being an ancestor of the source directory") +
+               f" (tests: {[ast.unparse(t) for t in tests]}): FORD deletes the sources when it rebuilds the output directory",
+               py.nloc(refusal))
     # main(): writeout is the first mutating step and comes after Project/correlate/markdown
     main = py.func("__init__.main")
     seq = [call_name(c).split(".")[-1] for st in main.body for c in py.walk_calls(st)]
